@@ -14,6 +14,10 @@ def harnesses(tier):
     i.shapes = [s for s in i.shapes if 'symbolic' in s['_tag']]
     hs.append(i)
     hs.append(eval_wrapper_harness())
+    from props import C02, C09
+    for nm in ('Unused_Return', 'Block', 'Assign_Decl'):          # rewrites that rebuild a statement / call node: the new node keeps the replaced node's own text and location
+        h = C02.pass_harness(nm, tier); h.name = 'E5.optimizer keeps locations.' + nm; hs.append(h)
+    idn = C09.carrier_harness(5); idn.name = 'E4.Id(error raised by the identifier node)'; hs.append(idn)
     return hs
 
 def eval_wrapper_harness():
@@ -31,4 +35,4 @@ def eval_wrapper_harness():
 
 ASSUMPTIONS = ['as C01 lexer harnesses; the start state satisfies the coordinate invariant, which each kernel must preserve (one inductive step covers any history)',
                'm_last_col holds the column of the newline just crossed (what operator++ records)']
-OUTSIDE = ['error construction in Id/Fun_Call nodes (which location the eval_error is given) and the copy of text/location AST_Node_Trace makes', 'file names across eval() chunks', 'columns after a tab (bytes are counted)']
+OUTSIDE = ['error construction in Fun_Call nodes (which location the eval_error is given) and the copy of text/location AST_Node_Trace makes', 'file names across eval() chunks', 'columns after a tab (bytes are counted)']
